@@ -134,7 +134,8 @@ def gen_case_c14(seed: int, s: int, w: int, tier: str) -> dict:
 def gen_case_c02(seed: int, s: int, w: int, tier: str) -> dict:
     rng = random.Random(f"{seed}:C02:{s}")
     ngraphs = _wchoice(rng, [(1, 0.7), (2, 0.3)])
-    graphs = [world.gen_graph(rng, 2, 6, acyclic=True) for _ in range(ngraphs)]
+    graphs = [world.gen_graph(rng, 2, 7, acyclic=True, pb_choices=(0.1, 0.3, 0.5, 0.7), pd_choices=(0.3, 0.5, 0.8),
+                               p_iso=0.08) for _ in range(ngraphs)]
     cur = [world.world_model(g) for g in graphs]
     queries = []
     for _ in range(rng.randint(1, 3)):
@@ -148,7 +149,7 @@ def gen_case_c02(seed: int, s: int, w: int, tier: str) -> dict:
         Y = rng.sample(rest, ny)
         queries.append({"g": gi, "X": X, "Y": Y})
     K = rng.randint(2, 4)
-    nrounds = _wchoice(rng, [(1, 0.7), (2, 0.3)])
+    nrounds = _wchoice(rng, [(1, 0.55), (2, 0.3), (3, 0.15)])
     rounds = []
     for r in range(nrounds):
         scripts: dict[str, list] = {}
@@ -168,7 +169,17 @@ def gen_case_c02(seed: int, s: int, w: int, tier: str) -> dict:
                     if sp is not None:
                         script.append(sp)
             scripts[f"c{i}"] = script
-        rounds.append({"scripts": scripts})
+        rnd: dict[str, Any] = {"scripts": scripts}
+        if r < nrounds - 1:
+            # the caller goes on editing its graph between rounds (at quiescence): Identification objects
+            # built earlier must keep answering for the graph they were built from
+            ev = []
+            for gi in range(ngraphs):
+                if rng.random() < 0.7:
+                    steps, cur[gi] = _gen_evolve(rng, graphs[gi], cur[gi])
+                    ev.append([gi, steps])
+            rnd["evolve"] = ev
+        rounds.append(rnd)
     pops = [{"name": "seq", "policy": "seq"}, _pop_inter(rng, "inter", tier)]
     rng_w = random.Random(f"{seed}:C02:{s}:w{w}")
     return {
